@@ -263,6 +263,27 @@ theorem inv_shutdown {s : St} (hi : Inv s) : Inv (shutdown s) := by
     obtain ⟨c, hc, rfl⟩ := List.mem_map.mp hx
     exact hi.open_ c hc hy
 
+theorem inv_readOne {s : St} (hi : Inv s) (hd : Nat) : Inv (readOne s hd) := by
+  unfold readOne
+  have hh : (s.conns.map fun x => if x.handle == hd then { x with buf := x.buf.tail } else x).map (·.handle) = s.conns.map (·.handle) := by
+    rw [List.map_map]; apply List.map_congr_left; intro x _; simp only [Function.comp]; split <;> rfl
+  have hback : ∀ a ∈ (s.conns.map fun x => if x.handle == hd then { x with buf := x.buf.tail } else x),
+      ∃ x ∈ s.conns, a.handle = x.handle ∧ a.cap = x.cap ∧ a.buf.length ≤ x.buf.length := by
+    intro a ha
+    obtain ⟨x, hx, rfl⟩ := List.mem_map.mp ha
+    refine ⟨x, hx, ?_⟩
+    split <;> simp
+  refine ⟨by simpa using hi.bound, ?_, by rw [hh]; exact hi.handles, ?_, hi.closedFresh, ?_, hi.closedOnce, ?_⟩
+  · simp only
+    rw [List.pairwise_map]
+    refine hi.distinct.imp ?_
+    intro a b hab
+    simp only [SameAddr] at hab ⊢
+    split <;> split <;> simpa using hab
+  · intro a ha; obtain ⟨x, hx, h1, -⟩ := hback a ha; simp only; rw [h1]; exact hi.fresh x hx
+  · intro a ha; obtain ⟨x, hx, h1, -⟩ := hback a ha; simp only; rw [h1]; exact hi.open_ x hx
+  · intro a ha; obtain ⟨x, hx, -, h2, h3⟩ := hback a ha; rw [h2]; exact Nat.le_trans h3 (hi.room x hx)
+
 theorem inv_down {s : St} (hi : Inv s) (b : Bool) : Inv { s with down := b } :=
   ⟨hi.bound, hi.distinct, hi.handles, hi.fresh, hi.closedFresh, hi.open_, hi.closedOnce, hi.room⟩
 
@@ -283,6 +304,7 @@ theorem inv_step {s : St} (hi : Inv s) (op : Op) : Inv (step s op) := by
     · exact hi
     · exact inv_process hi n g i b p
   | shutdown => exact inv_shutdown (inv_down hi true)
+  | read h => exact inv_readOne hi h
 
 /-- once the send queue is closed nothing stays registered: whatever connects is closed by the same loop iteration -/
 theorem down_empty (s : St) (op : Op) (h : s.down = true → s.conns = []) : (step s op).down = true → (step s op).conns = [] := by
@@ -306,6 +328,10 @@ theorem down_empty (s : St) (op : Op) (h : s.down = true → s.conns = []) : (st
       · rw [heq] at hdn; simpa [bump] using hdn
       · rw [hs] at hdn; exact hdn
   | shutdown => intro _; rfl
+  | read hh =>
+    simp only [step, readOne]
+    intro hdn
+    simp [h hdn]
 
 /-- **C18, safety half**: after every sequence of connects, disconnects, reconnects, sends (any pick) and shutdowns,
     with every limit and buffer size: the limit is respected, an address has at most one listener (a reconnect replaced
@@ -341,6 +367,28 @@ theorem c18_delivery (max : Nat) (ops : List Op) (n : Bool) (g i b : String) (p 
   | noConnection => simpa [hr] using hs
   | notifyWrongId => simpa [hr] using hs
   | full => simpa [hr] using hs
+
+/-- the streams: a send reported delivered adds its body exactly once, to the stream of the chosen listener; a send
+    not reported delivered adds nothing anywhere -/
+theorem c18_stream_of_send (s : St) (n : Bool) (g i b : String) (p : Nat) :
+    (process s n g i b p).1.log = s.log ++ (match (process s n g i b p).2 with | .delivered hd => [(hd, b)] | _ => []) := by
+  rcases process_cases s n g i b p with ⟨c, -, -, -, heq⟩ | ⟨hs, hnd⟩
+  · rw [heq]; rfl
+  · rw [hs]
+    cases hr : (process s n g i b p).2 with
+    | delivered hd => exact absurd hr (hnd hd)
+    | noConnection => simp
+    | notifyWrongId => simp
+    | full => simp
+
+/-- nothing but a send ever writes to a stream: connects, disconnects, reconnects, reads and shutdown leave every stream as it is -/
+theorem c18_stream_only_sends (s : St) (op : Op) (h : ∀ n g i b p, op ≠ .send n g i b p) : (step s op).log = s.log := by
+  cases op with
+  | connect g i cap => simp only [step, add, shutdown]; split <;> (split <;> rfl)
+  | disconnect hh g i => simp only [step, rmv, shutdown]; split <;> rfl
+  | send n g i b p => exact absurd rfl (h n g i b p)
+  | shutdown => rfl
+  | read hh => rfl
 
 /-- after the send queue has been closed (server stopping) no listener stays registered, whatever connects later -/
 theorem c18_down_registry_empty (max : Nat) (ops : List Op) :
